@@ -16,7 +16,13 @@ import (
 	"safecheck/relang"
 )
 
-func init() { register("C10", "proof", runC10) }
+func init() {
+	register("C10", "proof", func(p *Program, r *Report) {
+		runC10(p, r)
+		checkBoundsProven(p, r, "C10.B1", "html.go")
+		checkLoopsMakeProgress(p, r, "C10.B2", "html.go")
+	})
+}
 
 // specC10Controls: NUL, C0/C1 controls other than TAB LF FF CR, DEL (statement).
 func specC10Controls() *relang.Set {
